@@ -57,6 +57,7 @@ def run(repo, rep, tier):
                       "Translate wrapper, emit_translate default")
     _translate(repo, rep)
     implicit_inside_explicit(repo, rep)
+    default_content_translated(repo, rep)
     _siblings(repo, rep)
     _settings(repo, rep)
     _names(repo, rep)
@@ -698,6 +699,11 @@ def _translate_applied(repo, rep):
     f = repo.func("chameleon.zpt.program.MacroProgram.visit_element")
     sites = [n for n in ast.walk(f.node) if isinstance(n, ast.Call)
              and src(n.func) == "nodes.Translate"]
+    # (the wrapper of the content kept by tal:content="default" -- constant
+    # empty id -- has its own obligation: default-content-translated)
+    sites = [n for n in sites if not (
+        n.args and isinstance(n.args[0], ast.Constant)
+        and n.args[0].value == "")]
     rep.check(len(sites) == 1, "R10.1", f.qualname, "one construction site "
               "of the element-level Translate node",
               construct="translate-site", where=L.where(f))
@@ -951,6 +957,59 @@ def implicit_inside_explicit(repo, rep, rule="R10.1"):
     rep.check("%s = [True]" % stack in t, rule, init.qualname,
               "implicit translation is allowed at the top level",
               construct="implicit-initial", where=L.where(init))
+
+
+def default_content_translated(repo, rep, rule="R10.1"):
+    """tal:content="default" keeps the element's own content; on an element
+    marked i18n:translate that content is then the message -- it has to be
+    wrapped like the content of a marked element without tal:content."""
+    f = repo.func("chameleon.zpt.program.MacroProgram.visit_element")
+    sites = []
+    for n in ast.walk(f.node):
+        if isinstance(n, ast.Assign) and isinstance(n.value, ast.Call) and \
+                src(n.value.func) == "self._make_content_node" and \
+                len(n.value.args) >= 4 and \
+                src(n.targets[0]) == src(n.value.args[1]) == "content":
+            sites.append(n)
+    ok = len(sites) == 1
+    detail = "%d tal:content site(s)" % len(sites)
+    if ok:
+        st = sites[0]
+        flag = src(st.value.args[3])
+        blk = None
+        par = st._parent
+        for fld in ("body", "orelse", "finalbody"):
+            b = getattr(par, fld, None)
+            if isinstance(b, list) and st in b:
+                blk = b
+        before = blk[:blk.index(st)] if blk else []
+        fdef = [x for x in before if isinstance(x, ast.Assign)
+                and src(x.targets[0]) == flag]
+        ok_flag = bool(fdef) and "I18N, 'translate'" in src(fdef[-1].value)
+        wrapped = False
+        for x in before:
+            if isinstance(x, ast.If) and src(x.test) == flag and \
+                    not x.orelse and blk.index(x) > (
+                        blk.index(fdef[-1]) if fdef else -1):
+                for y in x.body:
+                    if isinstance(y, ast.Assign) and \
+                            src(y.targets[0]) == "content" and \
+                            isinstance(y.value, ast.Call) and \
+                            src(y.value.func) == "nodes.Translate" and \
+                            len(y.value.args) >= 2 and \
+                            isinstance(y.value.args[0], ast.Constant) and \
+                            y.value.args[0].value == "" and \
+                            src(y.value.args[1]) == "content":
+                        wrapped = True
+        ok = ok_flag and wrapped
+        detail = "flag %s from i18n:translate: %s; default content " \
+                 "wrapped: %s" % (flag, ok_flag, wrapped)
+    rep.check(ok, rule, f.qualname, "on an element marked i18n:translate "
+              "the content kept by tal:content=\"default\" is wrapped in a "
+              "Translate node (computed message id) before it becomes the "
+              "default branch", construct="default-content-translated",
+              where=L.where(f, sites[0].lineno) if sites else L.where(f),
+              detail=detail)
 
 
 def translate_skips_none(repo, rep, rule="R10.6"):
